@@ -68,15 +68,19 @@ def entryOf : String → Option Api.Entry
   | "query" => some .query | "first" => some .first | "exists" => some .exists
   | "match" => some .match_ | "eom" => some .existsOrMatch | _ => none
 
-/-- mask the address-derived `id` of `.keyvalue()` triples (DESIGN §4.3) -/
+/-- reduce the `id` of `.keyvalue()` triples to its base-object part: the offset part is derived from
+    heap addresses (DESIGN §4.3); the driver runs with `addrOf = 0`, so the offset is 0 here -/
 partial def maskIds : Item → Item
   | .arr xs => .arr (xs.map maskIds)
   | .obj kvs =>
     let kvs' : List (List Char × Item) := kvs.map fun (k, v) => (k, maskIds v)
     match kvs' with
-    | [(k1, Item.int _), (k2, v2), (k3, v3)] =>
+    | [(k1, Item.int i), (k2, v2), (k3, v3)] =>
       if k1 == "id".toList && k2 == "key".toList && k3 == "value".toList then
-        .obj [(k1, .int 0), (k2, v2), (k3, v3)]
+        let v3' := match v2, v3 with
+          | .str k, .int v => if k == "id".toList then Item.int (v / 10000000000) else v3
+          | _, _ => v3
+        .obj [(k1, .int (i / 10000000000)), (k2, v2), (k3, v3')]
       else .obj kvs'
     | _ => .obj kvs'
   | x => x
